@@ -10,7 +10,14 @@ def prebuild(repo):
 
 
 def spec(tier, seed, repo):
+    import os
     quick = tier == "quick"
+    # selftest aid: C15_PROTO=<0..5|name> restricts the scenario list to one protocol (floors then miss -> exit 2 unless a violation is found)
+    only = os.environ.get("C15_PROTO", "")
+    args = []
+    if only:
+        idx = PROTOS.index(only) if only in PROTOS else int(only)
+        args = ["--opt", "proto=%d" % idx]
     floors = {}
     # every protocol x {all honest, one faulty} must have reached the oracle
     for p in PROTOS:
@@ -31,8 +38,8 @@ def spec(tier, seed, repo):
         "dev_fired_parties": 20 if quick else 300,
     })
     return dict(
-        stages=[stage("w_c15", repo, nshards=16, case_timeout=300 if quick else 900,
-                      total_timeout=1200 if quick else 5400)],
+        stages=[stage("w_c15", repo, args=args, nshards=16, case_timeout=600 if quick else 1800,
+                      total_timeout=7200 if quick else 43200)],
         level="exploration",
         rule="one case = one scenario (protocol, n, t, faulty set, deviation script per faulty party, "
              "network mode {plain, link delays below the time-out, random pre-emption}, scheduler seed): "
